@@ -4,6 +4,7 @@ import (
 	"errors"
 	"io"
 	"os"
+	"runtime"
 	"sync"
 
 	biogosam "github.com/biogo/hts/sam"
@@ -19,6 +20,12 @@ import (
 // mutations relative to a reference sequence from pairwise alignments in sam format. Genome annotations are derived from a annotation file
 // in genbank or gff version 3 format
 func Variants(samIn, refIn io.Reader, refFromFile bool, annoIn io.Reader, annoSuffix string, out io.Writer, start, end int, aggregate bool, threshold float64, appendSNP bool, threads int) error {
+
+	// as in closest: no usable thread count means "as many as there are processors" (a pool of no workers would
+	// leave every record in its channel)
+	if threads < 1 {
+		threads = runtime.NumCPU()
+	}
 
 	var ref fastaio.EncodedFastaRecord
 	if refFromFile {
